@@ -391,10 +391,21 @@ impl Formatter {
     if self.html {
       format!("<h1 class=\"mech-program-title\">{}</h1>", title)
     } else {
-      format!(
-        "{}\n===============================================================================\n",
-        title
-      )
+      let rule = "===============================================================================";
+      let mut front_matter = String::new();
+      for (key, value) in [("author", &node.author), ("date", &node.date), ("kicker", &node.kicker), ("summary", &node.summary), ("next", &node.next), ("previous", &node.previous)] {
+        if let Some(paragraph) = value {
+          front_matter.push_str(&format!("{}: {}\n", key, self.inline_paragraph(paragraph)));
+        }
+      }
+      if let Some(hero) = &node.hero {
+        front_matter.push_str(&format!("hero: {}\n", self.section_element(hero).trim_end_matches('\n')));
+      }
+      if front_matter.is_empty() {
+        format!("{}\n{}\n", title, rule)
+      } else {
+        format!("{}\n{}\n{}{}\n", title, rule, front_matter, rule)
+      }
     }
   }
 
